@@ -288,6 +288,32 @@ Definition reorder (order : option (gmap nat nat)) : MS unit :=
   | Some o => sort_to_order o
   end.
 
+(** ** Public entry points of the reordering functions.
+
+    [BDD.swap] disables reordering requests while it moves nodes and restores
+    the threshold afterwards (since the repair of dd: a request raised by the
+    [find_or_add] calls inside [swap] aborted it midway).  In dd this happens
+    at every call of [swap]; nothing between two swaps of [reorder],
+    [_sort_to_order], [reorder_to_pairs] reads the threshold, so the model
+    disables and restores once around the whole public call.  With requests
+    disabled ([last_len = None], as inside [_try_to_reorder]) the guard is the
+    identity. *)
+Definition guarded {A} (m : MS A) : MS A :=
+  s <- get ;;
+  match last_len s with
+  | None => m
+  | Some ll =>
+      modify (fun s => s <| last_len := None |>) ;;;
+      r <- catch m ;;
+      modify (fun s => s <| last_len := Some ll |>) ;;;
+      reraise r
+  end.
+
+Definition swap_pub (x y : nat) : MS ((nat * nat) * levels_t) := guarded (swap x y None).
+Definition reorder_pub (order : option (gmap nat nat)) : MS unit := guarded (reorder order).
+Definition reorder_to_pairs_pub (pairs : list (nat * nat)) : MS unit :=
+  guarded (reorder_to_pairs pairs).
+
 (** ** The decorator [_try_to_reorder] with [_ReorderingContext] *)
 Definition try_to_reorder {A} (func : MS A) : MS A :=
   s <- get ;;
